@@ -25,9 +25,12 @@ import (
 	"github.com/libp2p/go-libp2p/p2p/muxer/yamux"
 	"github.com/libp2p/go-libp2p/p2p/net/swarm"
 	tptu "github.com/libp2p/go-libp2p/p2p/net/upgrader"
+	libp2pquic "github.com/libp2p/go-libp2p/p2p/transport/quic"
+	"github.com/libp2p/go-libp2p/p2p/transport/quicreuse"
 	"github.com/libp2p/go-libp2p/p2p/transport/tcp"
 	ma "github.com/multiformats/go-multiaddr"
 	manet "github.com/multiformats/go-multiaddr/net"
+	"github.com/quic-go/quic-go"
 
 	"verifsim/harness/common"
 	"verifsim/simhost"
@@ -48,17 +51,18 @@ var kindName = []string{"tcp", "quic", "webtransport", "ws", "circuit"}
 
 // outcome scripts
 const (
-	sRefuse    = iota // TCP: connection refused at once; stubs: fail after dur
-	sSucceed          // TCP: a real node of the peer listens there
-	sHang             // TCP: SYN black hole; stubs: hang until the context ends
-	sSilent           // TCP: connection accepted, nothing ever answers (accept-then-stall)
-	sReset            // TCP: accepted, then reset / EOF at the k-th I/O call of one end
-	sWrongPeer        // TCP: an honest OTHER peer answers there
-	sLie              // TCP: the transport itself dials the other peer (returns a conn authenticated as the wrong peer)
-	sStall            // TCP (noise runs only): stall fault at the k-th I/O call of one end
+	sRefuse     = iota // TCP: connection refused at once; stubs: fail after dur
+	sSucceed           // TCP: a real node of the peer listens there
+	sHang              // TCP: SYN black hole; stubs: hang until the context ends
+	sSilent            // TCP: connection accepted, nothing ever answers (accept-then-stall)
+	sReset             // TCP: accepted, then reset / EOF at the k-th I/O call of one end
+	sWrongPeer         // TCP: an honest OTHER peer answers there
+	sLie               // TCP: the transport itself dials the other peer (returns a conn authenticated as the wrong peer)
+	sStall             // TCP (noise runs only): stall fault at the k-th I/O call of one end
+	sLossyStart        // QUIC stratum: a real node of the peer listens, the first k datagrams of every dial are lost
 )
 
-var scriptName = []string{"fail", "succeed", "hang", "silent", "reset", "wrong-peer", "transport-lies", "stall"}
+var scriptName = []string{"fail", "succeed", "hang", "silent", "reset", "wrong-peer", "transport-lies", "stall", "first-datagrams-lost"}
 
 // target is one address that may legitimately be handed to a transport.
 type target struct {
@@ -83,6 +87,8 @@ func (t *target) String() string {
 	switch {
 	case t.kind != tTCP && t.script == sRefuse:
 		s += fmt.Sprintf(" after %v", t.dur)
+	case t.script == sLossyStart:
+		s += fmt.Sprintf(" (%d)", t.faultAt)
 	case t.script == sReset || t.script == sStall:
 		end := "dialer"
 		if t.onListener {
@@ -169,6 +175,8 @@ type world struct {
 	targets  map[string]*target // by canonical address (all peers; addresses are disjoint)
 	dns      map[string]dnsEntry
 	dnsSeen  map[string]bool
+	quic     bool           // QUIC stratum: /quic-v1 addresses go to the REAL QUIC transport over simnet's UDP wire
+	udpLost  map[string]int // sLossyStart: datagrams dropped so far in the current dial, by destination
 	recs     []*dialRec
 	dnsCalls int
 }
@@ -277,7 +285,11 @@ func (w *world) genPeer(g simrt.Gen, pi, n int, exact, noise, allFail bool, ownA
 		if !exact {
 			wf = 1
 		}
-		kind := g.Weighted(6, 2, 1, 1, 1, 1, 1, wf, wf, wf, wf, wf)
+		wt, wq := 6, 2
+		if w.quic {
+			wt, wq = 4, 5
+		}
+		kind := g.Weighted(wt, wq, 1, 1, 1, 1, 1, wf, wf, wf, wf, wf)
 		ip, public := ipFor(pi, i, g.Weighted(3, 3, 1, 1))
 		port := ports[g.Int(len(ports))]
 		pr := ipProto(ip)
@@ -295,7 +307,19 @@ func (w *world) genPeer(g simrt.Gen, pi, n int, exact, noise, allFail bool, ownA
 			ps.raw = append(ps.raw, raw)
 		case 1: // QUIC v1
 			t := &target{kind: tQUIC, key: fmt.Sprintf("/%s/%s/udp/%d/quic-v1", pr, ip, port), ip: ip, port: port, public: public}
-			stubScript(t)
+			switch {
+			case !w.quic:
+				stubScript(t)
+			case allFail:
+				t.script = []int{sHang, sWrongPeer}[g.Weighted(3, 1)]
+			default:
+				// real QUIC: served, dead (nobody listens: datagrams vanish, the dial ends with the handshake
+				// timeout or its context), served by the other peer, served after the first k datagrams were lost
+				t.script = []int{sSucceed, sHang, sWrongPeer, sLossyStart}[g.Weighted(4, 3, 1, 2)]
+				if t.script == sLossyStart {
+					t.faultAt = 1 + g.Int(3)
+				}
+			}
 			t = add(t)
 			quics = append(quics, t)
 			ps.raw = append(ps.raw, t.key)
@@ -571,16 +595,52 @@ func (t *recTransport) DialWithUpdates(ctx context.Context, raddr ma.Multiaddr, 
 	return c, err
 }
 
+// recQUIC is the real QUIC transport (p2p/transport/quic over quicreuse over simnet's UDP wire) behind the
+// same recorder.
+type recQUIC struct {
+	transport.Transport
+	w *world
+}
+
+func (t *recQUIC) Dial(ctx context.Context, raddr ma.Multiaddr, p peer.ID) (transport.CapableConn, error) {
+	r := t.w.begin(tQUIC, raddr, p, ctx)
+	if tg := t.w.targets[r.addr]; tg != nil && tg.script == sLossyStart {
+		t.w.udpLost[udpKey(tg.ip, tg.port)] = 0 // a new attempt loses its first datagrams again
+	}
+	c, err := t.Transport.Dial(ctx, raddr, p)
+	t.w.finish(r, err)
+	return c, err
+}
+
+func (t *recQUIC) Close() error {
+	if c, ok := t.Transport.(interface{ Close() error }); ok {
+		return c.Close()
+	}
+	return nil
+}
+
+func udpKey(ip string, port int) string {
+	return net.JoinHostPort(net.ParseIP(ip).String(), fmt.Sprint(port))
+}
+
 type dialer struct {
 	id    peer.ID
 	swarm *swarm.Swarm
 	ps    peerstore.Peerstore
+	cm    *quicreuse.ConnManager
 }
 
 func (d *dialer) close() {
 	d.swarm.Close()
+	if d.cm != nil {
+		d.cm.Close()
+	}
 	d.ps.Close()
 }
+
+type fixedSource struct{ ip net.IP }
+
+func (f fixedSource) PreferredSourceIPForDestination(*net.UDPAddr) (net.IP, error) { return f.ip, nil }
 
 func newDialer(n *simnet.Net, w *world, key crypto.PrivKey, ip, secu string, opts ...swarm.Option) (*dialer, error) {
 	id, err := peer.IDFromPrivateKey(key)
@@ -620,17 +680,44 @@ func newDialer(n *simnet.Net, w *world, key crypto.PrivKey, ip, secu string, opt
 	if err := sw.AddTransport(&recTransport{TcpTransport: tt, w: w, net: n, up: up}); err != nil {
 		return fail(err)
 	}
-	for _, s := range []*stub{
-		{w: w, kind: tQUIC, protos: []int{ma.P_QUIC_V1}},
-		{w: w, kind: tWT, protos: []int{ma.P_WEBTRANSPORT}},
-		{w: w, kind: tWS, protos: []int{ma.P_WS, ma.P_WSS}},
-		{w: w, kind: tCircuit, protos: []int{ma.P_CIRCUIT}, proxy: true},
-	} {
-		if err := sw.AddTransport(s); err != nil {
+	var cm *quicreuse.ConnManager
+	stubs := []*stub{{w: w, kind: tQUIC, protos: []int{ma.P_QUIC_V1}}}
+	if w.quic {
+		// exactly what simhost does for Opts.QUIC, plus the recorder
+		stubs = nil
+		var srk quic.StatelessResetKey
+		var tk quic.TokenGeneratorKey
+		copy(srk[:], []byte("verifsim-srk-"+id.String()))
+		copy(tk[:], []byte("verifsim-tok-"+id.String()))
+		src := net.ParseIP(ip)
+		cm, err = quicreuse.NewConnManager(srk, tk,
+			quicreuse.OverrideListenUDP(n.UDPListenFunc(ip)),
+			quicreuse.OverrideSourceIPSelector(func() (quicreuse.SourceIPSelector, error) { return fixedSource{src}, nil }))
+		if err != nil {
+			return fail(err)
+		}
+		qt, err := libp2pquic.NewTransport(key, cm, nil, nil, rm)
+		if err == nil {
+			err = sw.AddTransport(&recQUIC{Transport: qt, w: w})
+		}
+		if err != nil {
+			cm.Close()
 			return fail(err)
 		}
 	}
-	return &dialer{id: id, swarm: sw, ps: ps}, nil
+	for _, s := range append(stubs, []*stub{
+		{w: w, kind: tWT, protos: []int{ma.P_WEBTRANSPORT}},
+		{w: w, kind: tWS, protos: []int{ma.P_WS, ma.P_WSS}},
+		{w: w, kind: tCircuit, protos: []int{ma.P_CIRCUIT}, proxy: true},
+	}...) {
+		if err := sw.AddTransport(s); err != nil {
+			if cm != nil {
+				cm.Close()
+			}
+			return fail(err)
+		}
+	}
+	return &dialer{id: id, swarm: sw, ps: ps, cm: cm}, nil
 }
 
 // netKey is simnet's name of a TCP endpoint.
@@ -646,7 +733,20 @@ func goroutines() map[string]int {
 		if strings.Contains(g, "verifsim/simnet.") || strings.Contains(g, "harness/c05.run") {
 			continue
 		}
-		out[g]++
+		// socket loops of a quic-go Transport belong to the connection manager's transport pool, not to a dial
+		// (quicreuse keeps the transport a SUCCESSFUL dial went out from referenced even after the connection
+		// was closed, so it is never collected before ConnManager.Close — outside C05, reported separately)
+		if strings.Contains(g, "quic-go.(*Transport)") {
+			continue
+		}
+		// normalise: the frame list may end in an empty entry or a "created by" line depending on how deep the stack is
+		var fr []string
+		for _, f := range strings.Split(g, " < ") {
+			if f = strings.TrimSpace(f); f != "" && !strings.HasPrefix(f, "created by") {
+				fr = append(fr, f)
+			}
+		}
+		out[strings.Join(fr, " < ")]++
 	}
 	return out
 }
